@@ -32,6 +32,17 @@ thread_local! {
     static LOG: RefCell<Vec<Event>> = const { RefCell::new(Vec::new()) };
     static SEED: Cell<Option<u64>> = const { Cell::new(None) };
     static FUEL: Cell<Option<u64>> = const { Cell::new(None) };
+    static DEADLINE: Cell<Option<std::time::Instant>> = const { Cell::new(None) };
+    static TICKS: Cell<u32> = const { Cell::new(0) };
+}
+
+/// Message of the panic raised when the deadline set with [set_deadline] has passed
+pub const DEADLINE_PASSED: &str = "verif-hooks: deadline passed";
+
+/// Give the statement iterator on this thread a wall-clock deadline (`None` = none). It is
+/// looked at every 256 steps; once it has passed the iterator panics with [DEADLINE_PASSED].
+pub fn set_deadline(deadline: Option<std::time::Instant>) {
+    DEADLINE.with(|d| d.set(deadline));
 }
 
 /// Message of the panic raised when the fuel set with [set_fuel] is used up
@@ -50,6 +61,16 @@ pub fn fuel_left() -> Option<u64> {
 }
 
 pub(crate) fn burn_fuel() {
+    if let Some(deadline) = DEADLINE.with(|d| d.get()) {
+        let t = TICKS.with(|t| {
+            t.set(t.get().wrapping_add(1));
+            t.get()
+        });
+        if t % 256 == 0 && std::time::Instant::now() > deadline {
+            DEADLINE.with(|d| d.set(None));
+            panic!("{}", DEADLINE_PASSED);
+        }
+    }
     FUEL.with(|f| {
         if let Some(n) = f.get() {
             if n == 0 {
